@@ -25,7 +25,7 @@ ASSUMPTIONS = [
     "a message is expired at t >= accept + lifetime (the property text: 'never at or after its lifetime has elapsed')",
     "all instants are dyadic rationals, so 'exactly at expiry' is an exact float comparison",
 ]
-PROBES = ["c16.down_by_write_fault", "c16.add_at_connect_notification", "c16.expired_during_slow_flush", "c16.overflow", "c16.expiry_made_room", "c16.send_at_exact_expiry", "c16.not_open", "c16.expired_never_sent", "c16.connect_at_exact_expiry"]
+PROBES = ["c16.requeued_victim_expired", "c16.down_by_write_fault", "c16.add_at_connect_notification", "c16.expired_during_slow_flush", "c16.overflow", "c16.expiry_made_room", "c16.send_at_exact_expiry", "c16.not_open", "c16.expired_never_sent", "c16.connect_at_exact_expiry"]
 LIFETIMES = [0.25, 0.5, 1.0, 2.0, 5.0, 30.0]
 
 
@@ -41,25 +41,35 @@ def gen_after_fault(rng) -> dict:
     retries = rng.choice([0, 0, 2])
     k = rng.choice([2, 3, 5])
     how = rng.choice(["write", "stall_rst"])
+    # sometimes the victim is short-lived and the reconnection (one slow attempt instead of refusals) comes up just after
+    # its lifetime has ended: re-queued or not, it is expired by then and must not be transmitted
+    vlife = 30.0
+    slow = None
+    if retries and rng.random() < 0.5:
+        vlife = rng.choice([0.5, 1.0, 1.5])
+        slow = vlife + rng.choice([0.125, 0.25, 0.375])
     tl = [{"at": 0.0, "op": "user.open"}]
     if how == "write":
         tl.append({"at": 1.0 - G.EPS, "op": "net.fail_write", "nth": rng.choice([1, 2, 3]), "err": rng.choice(["EPIPE", "ECONNRESET"])})
-        tl.append({"at": 1.0, "op": "user.send", "msg": msgs[0], "policy": {"retries": retries, "lifetime": 30.0}, "victim": True})
+        tl.append({"at": 1.0, "op": "user.send", "msg": msgs[0], "policy": {"retries": retries, "lifetime": vlife}, "victim": True})
         t_f = 1.0
     else:
         tl.append({"at": 1.0 - G.TICK, "op": "net.stall", "on": True})
-        tl.append({"at": 1.0, "op": "user.send", "msg": msgs[0], "policy": {"retries": retries, "lifetime": 30.0}, "victim": True})
+        tl.append({"at": 1.0, "op": "user.send", "msg": msgs[0], "policy": {"retries": retries, "lifetime": vlife}, "victim": True})
         tl.append({"at": 1.125, "op": "net.rst"})
         t_f = 1.125
     knobs = {"latency": G.TICK, "first_packet_id": rng.choice([0, 250]),
              "fates": [{"kind": "accept", "latency": 0.0}] + [{"kind": "refuse", "latency": 0.0}] * k + [{"kind": "accept", "latency": 0.0}]}
+    if slow is not None:
+        knobs["fates"] = [{"kind": "accept", "latency": 0.0}, {"kind": "accept", "latency": slow}]
+        k = 1
     n = rng.choice([9, 10, 11, 13])
     t = t_f + 0.25
     for d in msgs[1: 1 + n]:
         tl.append({"at": t, "op": "user.send", "msg": d, "policy": {"retries": rng.choice([0, 2]), "lifetime": 30.0}})
         t += rng.choice([G.TICK, 0.0625, 0.125])
     tl.sort(key=lambda s: s["at"])
-    return {"gen": gen, "mode": "socket", "knobs": knobs, "timeline": tl, "end": t_f + 2.0 * k + 4.0, "class": "after_fault", "victim_retries": retries}
+    return {"gen": gen, "mode": "socket", "knobs": knobs, "timeline": tl, "end": t_f + 2.0 * k + 4.0, "class": "after_fault", "victim_retries": retries, "victim_life": vlife}
 
 
 def exec_after_fault(sc: dict) -> dict:
@@ -76,11 +86,19 @@ def exec_after_fault(sc: dict) -> dict:
     t_down = next((e[1] for e in w.trace.events if e[2] in ("conn.force_close", "conn.lost")), None)
     held = 1 if sc["victim_retries"] > 0 else 0
     expect_tx = [victim_id] if held else []
+    v0 = next((s for s in subs if s["id"] == victim_id), None)
+    v_expiry = (v0["t_accept"] + sc.get("victim_life", 30.0)) if v0 is not None else 1e18
+    v_counted = bool(held)
+    buffered = {victim_id}
     for s in subs:
         if s["id"] == victim_id or t_down is None or s["t_accept"] <= t_down:
             continue
         if len(links) >= 2 and s["t_accept"] >= links[1].t_accept:
             continue
+        buffered.add(s["id"])
+        if v_counted and s["t_accept"] >= v_expiry:
+            held -= 1  # the re-queued victim has expired: discarded first
+            v_counted = False
         if held >= 10:
             probes["c16.overflow"] = 1
             if s["exc"] != "QueueOverflowError":
@@ -93,10 +111,16 @@ def exec_after_fault(sc: dict) -> dict:
         held += 1
         expect_tx.append(s["id"])
     if not V and len(links) >= 2:
-        got = [f["sub"] for f in h.frames if f["link"] >= links[1].id and f.get("sub") is not None]
+        v_sub = next((s for s in subs if s["id"] == victim_id), None)
+        if v_sub is not None and victim_id in expect_tx and links[1].t_accept >= v_sub["t_accept"] + sc.get("victim_life", 30.0):
+            expect_tx.remove(victim_id)  # expired while the link was down
+            probes["c16.requeued_victim_expired"] = 1
+        got = [f["sub"] for f in h.frames if f["link"] >= links[1].id and f.get("sub") in buffered]
         if got != expect_tx:
             missing = [i for i in expect_tx if i not in got]
-            V.append(viol("C16.held_lost" if missing else "C16.order", {"want": expect_tx, "got": got, "missing": missing, "after_write_fault": True}))
+            extra = [i for i in got if i not in expect_tx]
+            V.append(viol("C16.held_lost" if missing else "C16.expired_or_rejected_sent" if extra else "C16.order",
+                          {"want": expect_tx, "got": got, "missing": missing, "extra": extra, "after_write_fault": True}))
     return common.result(w, V, nontrivial=True, probes=probes, evals=max(1, len(subs)))
 
 
